@@ -81,7 +81,7 @@ def run_loop(I, node, spec, st, ctx, k):
   view = FrameView(ctx.fid)
 
   if isinstance(node, ast.For):
-    raise Unsupported("for-loop invariants: use run_for (not implemented for this loop at %s)" % where)
+    return run_for(I, node, spec, st, ctx, k)
 
   def eval_pred(fn, st_, kk):
     """evaluate spec function fn(view) in st_ -> kk(st', value)"""
@@ -142,3 +142,62 @@ def run_loop(I, node, spec, st, ctx, k):
       return eval_pred(spec.invariant, st1b, assumed)
     return I.truth(inv0, st1, ctx, with_truth, node)
   return eval_pred(spec.invariant, st, after_init)
+
+
+def run_for(I, node, spec, st, ctx, k):
+  """`for x in seq` over a list of symbolic length, cut at an invariant over the ghost index v._i:
+       _i = 0; while _i < len(seq): x = seq[_i]; body; _i += 1"""
+  from .values import SElem, Ref
+  where = I.where(ctx, node)
+  lname = spec.name or ("loop@" + where)
+
+  def with_iter(st0, seq):
+    if not (isinstance(seq, Ref) and st0.obj(seq).kind == "slist"):
+      raise Unsupported("for-loop invariant given for a loop over a concrete sequence at %s" % where)
+    n = zint(st0.obj(seq).data["len"])
+    view = FrameView(ctx.fid, {"_i": 0, "_seq": seq})
+
+    def eval_pred(fn, st_, i, kk):
+      v = FrameView(ctx.fid, {"_i": i, "_seq": seq})
+      return I.call_value(fn, [v], {}, st_, ctx, kk, node)
+
+    def after_init(st1, inv0):
+      def with_truth(st1b, t):
+        I.check_obligation(st1b, t, "loop.init:" + lname, kind="loop")
+        hv = dict(spec.havoc) if spec.havoc else {}
+        fr1 = st1b.frames[ctx.fid]
+        names = assigned_names(node.body) + [x.id for x in ast.walk(node.target) if isinstance(x, ast.Name)]
+        for nm in names:
+          if nm not in hv:
+            hv[nm] = None
+        for nm, kind in hv.items():
+          if nm not in fr1:
+            continue
+          if any(isinstance(x, ast.Name) and x.id == nm for x in ast.walk(node.target)):
+            continue
+          fr1[nm] = _fresh_like(I, st1b, nm, fr1[nm], kind)
+        i = fresh_int("_i")
+        st1b.add(z3.And(i >= 0, i <= n))
+        def assumed(st2, inv1):
+          def with_t2(st2b, t2):
+            st2b.add(t2 if is_sym(t2) else z3.BoolVal(bool(t2)))
+            if not st2b.feasible(True):
+              return
+            def body(st3):
+              def end_iter(st7):
+                def chk(st8, inv2):
+                  def with_t3(st8b, t3):
+                    I.check_obligation(st8b, t3, "loop.preserve:" + lname, kind="loop")
+                  return I.truth(inv2, st8, ctx, with_t3, node)
+                return eval_pred(spec.invariant, st7, concretize(i + 1), chk)
+              c2 = ctx.replace(brk_k=k, cont_k=end_iter)
+              return I.assign(node.target, SElem(seq, i), st3, ctx,
+                              lambda st4: I.ex(node.body, 0, st4, c2, end_iter))
+            def done(st3):
+              return I.ex(node.orelse, 0, st3, ctx, k)
+            return I.branch(i < n, st2b, body, done, "for-test")
+          return I.truth(inv1, st2, ctx, with_t2, node)
+        return eval_pred(spec.invariant, st1b, i, assumed)
+      return I.truth(inv0, st1, ctx, with_truth, node)
+    return eval_pred(spec.invariant, st0, 0, after_init)
+  return I.ev(node.iter, st, ctx, with_iter)
